@@ -74,7 +74,11 @@ def all_pairs():
 VARIANTS = [("direct", 0, 0), ("direct", 2, 0), ("direct", 0, 1), ("direct", 2, 1),
             ("link", 1, 0), ("link", 1, 1), ("link", 1, 2), ("link", 1, 3),
             # a static output read by a static input several times (the converted data is cached by the input)
-            ("static", 1, 0), ("static", 1, 1)]
+            ("static", 1, 0), ("static", 1, 1),
+            # the producer publishes flat data (one entry per data point, in the memory order of its grid)
+            ("flat", 1, 0), ("flat", 1, 1), ("flat", 1, 2),
+            # a pass-through adapter between the two ends (the conversion is the input's business, once)
+            ("adapter", 1, 0), ("adapter", 1, 1), ("adapter", 1, 2)]
 
 
 def perturb(rng, spec):
@@ -180,11 +184,17 @@ def run_pair(case):
             static = case["via"] == "static"
             o = fm.Output(name="out", static=static, info=fm.Info(time=None if static else T(0), grid=gs, units="m", mask=src_mask))
             i = fm.Input(name="in", static=static, info=fm.Info(time=None, grid=gd, units=None, mask=dst_mask))
-            o >> i
+            if case["via"] == "adapter":
+                import finam.adapters as _ad
+                o >> _ad.Scale(1.0) >> i
+            else:
+                o >> i
             i.ping()
             i.exchange_info()
             out["transform"] = "pass" if i._transform is None else "convert"
             payload = np.ma.masked_array(x[0].copy(), m[0].copy()) if masked == 1 else x[0].copy()
+            if case["via"] == "flat":
+                payload = payload.flatten(order=gs.order)
             o.push_data(payload, None if static else T(0))
             res = i.pull_data(T(0))
             if static:
@@ -218,7 +228,7 @@ def compare_pair(case, impl, models):
         return {"observable": "compatible_with", "impl": impl["compatible"], "model": md["compatible"]}
     if impl["eq"] != md["eq"]:
         return {"observable": "__eq__", "impl": impl["eq"], "model": md["eq"]}
-    key = "deliver" if case["via"] in ("link", "static") else "trans"
+    key = "deliver" if case["via"] in ("link", "static", "flat", "adapter") else "trans"
     if "err" in impl:
         exp = md[key] if "err" in md[key] else md["transform"]
         got = {"err": impl["err"]}
